@@ -30,6 +30,34 @@ def short_chain(chain):
     return ">".join(out)
 
 
+def own_state(ctx, idx):
+    """The futures below `Worker::run_control_streams` interpret the control plane and are dropped and re-created on every iteration of the
+    worker loop.  Whatever such a future keeps in a local across a suspension (a flag 'SETTINGS seen', a counter, a partially filled
+    buffer) is forgotten at an arbitrary moment, which makes the interpretation depend on how the peer's bytes were segmented.  State
+    must live behind `self` (it survives the re-creation).  Saved locals of reference type, the select machinery and the awaited future
+    itself are not state of the runner."""
+    root = "wtransport::driver::worker::Worker::run_control_streams::{closure#0}"
+    n = 0
+    for d in sorted(idx.awaited_local(root) | {root}):
+        c = idx.coros.get(d)
+        if c is None or not (d == root or re.search(r"^wtransport::driver::streams::(settings|connect|qpack)::", d)):
+            continue
+        for s in c.susp:
+            own = []
+            for nm, ty in s.held_types():
+                if ty.get("k") in ("ref", "ptr"):
+                    continue
+                if s.is_select and nm in ("disabled", "futures", "output"):
+                    continue
+                own.append((nm, ty_short(ty)[:60]))
+            n += 1
+            ctx.check("C05-R5", "%s|susp%d keeps only borrows" % (short_chain([d]), s.variant), not own,
+                      "%s keeps %s in the future across an await; Worker::run_impl's select! loop drops and re-creates this future on every "
+                      "iteration, so that state is lost at a point that depends on packet segmentation" % (short_chain([d]), own), s.where,
+                      key="%s keeps own state %s" % (short_chain([d]), ",".join(o[0] or "?" for o in own)))
+    ctx.floor("C05-R5", "suspension points of control-stream runners", n, 6)
+
+
 def run(ctx):
     idx = CoroIndex(ctx.A)
     ctx.count("coroutines", len(idx.coros))
@@ -82,6 +110,9 @@ def run(ctx):
                               % (bname, c[-1], short_chain(c)), s.where)
     ctx.count("select_branches", nbr)
     ctx.floor("C05-R1", "select branches", nbr, 14)
+
+    ctx.rule("C05-R5", "control-stream runner futures are re-created by the select loop, so they keep no state of their own across an await: only borrows of self")
+    own_state(ctx, idx)
 
     ctx.rule("C05-R2", "inventory of every await of a progress-carrying future with its cancellation context")
     spawned = {cor for _, _, cor in idx.spawn_sites() if cor}
